@@ -13,14 +13,17 @@ CFG = {
                   "every select once Stop was called, exit is absorbing, and without further producer offers at most "
                   "cap+1 other worker steps are possible (Go's select picks ready clauses at random, so termination is "
                   "with probability 1, not under every schedule).",
-    "lean_props": ["BtcwVerif.Props.C18"],
+    "lean_props": ["BtcwVerif.Props.C18", "BtcwVerif.Props.C18Loops"],
     "engines": ["queue"],
-    "extractors": [{"name": "queue", "out": "QueueGen.lean"}],
+    "extractors": [{"name": "queue", "out": "QueueGen.lean"}, {"name": "notifloop", "out": "NotifLoopGen.lean"}],
     "trusted_base": COMMON_TB + [
         "the table interpreter Queue.wstep in BtcwVerif/Model/Queue.lean as semantics of Go select/channels/container-list "
         "(unbuffered chanIn, buffered chanOut incl. capacity 0 rendez-vous, closed quit channel, default clause)",
         "the extractor harness/cmd/vxextract/queue.go (go/ast) producing Gen/QueueGen.lean; tied by C18_generated_table (decide)",
         "the Go runtime: scheduler, select fairness, channel implementation, container/list",
+        "btcd.go / neutrino.go handler loops (their own slice queue, not ConcurrentQueue): hand model "
+        "BtcwVerif/Model/NotifLoop.lean tied ONLY by the idiom-recognising extractor harness/cmd/vxextract/notifloop.go "
+        "(C18_loops_generated, decide); no run on the real loops (they need a live btcd / neutrino service)",
     ],
     "assumptions": [
         "one consumer (the delivered sequence is what that consumer receives); any number of producers (their sends are "
